@@ -181,6 +181,14 @@ func runResume(c *Case) (obs []CallObs, fatal string) {
 	})
 	sctx := context.WithValue(ctx, sessKey{}, sess)
 	var ck *Ck // what the store holds, as far as the last interrupt showed it
+	changed := make([]string, len(c.Calls))
+	defer func() {
+		for i := range obs {
+			if changed[i] != "" && obs[i].Class != "hang" && obs[i].Class != "" {
+				obs[i].ArgsChanged = changed[i]
+			}
+		}
+	}()
 	for i := range c.Calls {
 		cl := c.Calls[i]
 		rec := newRecorder(c.Sched + uint64(i)*7919)
@@ -188,6 +196,7 @@ func runResume(c *Case) (obs []CallObs, fatal string) {
 		done := make(chan struct{})
 		var cerr error
 		var pan any
+		saved := append([]compose.Option(nil), opts[i]...)
 		go func() {
 			defer close(done)
 			pan = lib.Recover(func() {
@@ -200,6 +209,7 @@ func runResume(c *Case) (obs []CallObs, fatal string) {
 			obs[i] = CallObs{Class: "hang"}
 			return obs, ""
 		}
+		changed[i] = optionsChanged(saved, opts[i])
 		if pan != nil {
 			obs[i] = CallObs{Class: "panic", Err: fmt.Sprint(pan)}
 			return obs, ""
